@@ -14,7 +14,8 @@ META = {
 }
 
 NONMETAL = {1, 2, 5, 6, 7, 8, 9, 10, 14, 15, 16, 17, 18, 32, 33, 34, 35, 36, 51, 52, 53, 54, 85, 86, 118}
-ELSPEC = [('C', {6}), ('N', {7}), ('O', {8}), ('Cl', {17}), ('#6', {6}), ('#26', {26}), ('C,N', {6, 7}), ('N,O,S', {7, 8, 16}), ('A', None), ('M', 'metal')]
+ELSPEC = [('C', {6}), ('N', {7}), ('O', {8}), ('Cl', {17}), ('#6', {6}), ('#26', {26}), ('C,N', {6, 7}), ('N,O,S', {7, 8, 16}), ('A', None), ('M', 'metal'),
+          ('Cl,Br', {17, 35}), ('Si,Se', {14, 34}), ('#17,#35', {17, 35}), ('Na,Sn', {11, 50}), ('Co,Cu', {27, 29})]
 PRIMS = ([('D%d' % k, ('D', {k})) for k in range(5)] + [('h%d' % k, ('h', {k})) for k in range(4)] +
          [('r3', ('r', {3})), ('r5', ('r', {5})), ('r6', ('r', {6})), ('r5,r6', ('r', {5, 6})), ('!R', ('R', None)), ('a', ('z', {4}))] +
          [('x%d' % k, ('x', {k})) for k in range(4)] + [('z%d' % k, ('z', {k})) for k in range(1, 5)] + [('z1,z2', ('z', {1, 2})), ('D1,D2', ('D', {1, 2})), ('h1,h2', ('h', {1, 2}))])
@@ -120,7 +121,7 @@ def mol_set(tier):
             mols.append((spec['tag'], M.to_chython(spec)))
     extra = ['C1CC1', 'C1CCC1', 'C1CCCC1', 'C1CCCCC1', 'C1CCCCCC1', 'C1CC2CCC1C2', 'C1CCC2CCCCC2C1', 'c1ccccc1', 'c1ccncc1', 'c1cc[nH]c1', 'c1ccc2ccccc2c1', 'c1ccccc1-c1ccccc1',
              'C1CC1C1CC1', 'C1CCCCC1C1CCCCC1', '[NH4+]', 'C[N+](C)(C)C', 'CC(=O)[O-]', '[Na+].[Cl-]', 'C#N', 'C=C=C', 'CC#CC', 'N#CC=O', '[13CH4]', 'C[2H]', '[Fe]', 'Cl[Pt](Cl)(N)N',
-             'O=S(=O)(O)O', 'OP(O)(O)=O', 'FC(F)(F)C(Cl)(Cl)Br', 'C1=CC=CC=C1', 'O=C1C=CC(=O)C=C1', 'C1CC11CC1', 'CN1C=NC2=C1C(=O)N(C)C(=O)N2C', 'C[Si](C)(C)C', 'B(O)(O)C', 'C~[Fe]',
+             'O=S(=O)(O)O', 'OP(O)(O)=O', 'FC(F)(F)C(Cl)(Cl)Br', 'C1=CC=CC=C1', 'O=C1C=CC(=O)C=C1', 'C1CC11CC1', 'CN1C=NC2=C1C(=O)N(C)C(=O)N2C', 'C[Si](C)(C)C', 'B(O)(O)C', 'C~[Fe]', 'C[Sn](C)(C)C', 'C[Se]C', 'Cl[Co]Cl', 'Br[Cu]',
              'C1CC1~[Cu]', '[CH3]', 'C[O]', 'CC(C)(C)C', 'OC(O)(O)O', 'C1CCC2(CC1)CCCC2']
     extra += inputs.organometallics()[::5]
     extra += M.corpus(stride=40 if tier == 'quick' else 8)
@@ -156,7 +157,7 @@ def run_atoms(shard):
     queries = []
     for (etxt, zs) in ELSPEC:
         for ctxt, ch in CHARGES:
-            if ctxt and etxt in ('A', 'M', '#6', '#26', 'C,N', 'N,O,S'):
+            if ctxt and etxt in ('A', 'M', '#6', '#26', 'C,N', 'N,O,S', 'Cl,Br', 'Si,Se', '#17,#35', 'Na,Sn', 'Co,Cu'):
                 continue
             combos = [()] + [(p,) for p in PRIMS] + list(itertools.combinations(PRIMS, 2))
             for combo in combos:
@@ -581,7 +582,7 @@ def run_stereo_templates(shard):
 
 
 def plan(tier, seed):
-    return [Stage('atom primitives and pairs', run_atoms, [(k, 64, tier) for k in range(64)], '10 element specs x (27 primitives + all pairs) (+charges, isotopes) x every atom of the molecule scope'),
+    return [Stage('atom primitives and pairs', run_atoms, [(k, 64, tier) for k in range(64)], '15 element specs x (27 primitives + all pairs) (+charges, isotopes) x every atom of the molecule scope'),
             Stage('bond primitives', run_bonds, [(k, 21, tier) for k in range(21)], '%d bond primitives (orders, lists, negations, ring/non-ring) x every bond of the molecule scope' % len(BONDS)),
             Stage('unsupported / malformed SMARTS', run_syntax, [0], 'unsupported constructs and all token strings of length <=3: ValueError family or a query'),
             Stage('stereo marks: templates', run_stereo_templates, [(p, tier) for p in ('tet4', 'tet3h', 'decor', 'allene')],
